@@ -25,6 +25,10 @@ VARIABLES tid, l
 Traces == JsonDeserialize(IOEnv.TRACE_FILE)
 NSteps(t) == Len(Traces[t].steps)
 S(i) == Traces[tid].steps[i]
+\* states are stored once in a table of distinct states; the clock travels with the step
+St(i) == Traces[tid].states[S(i).si] @@ [clock |-> S(i).clock]
+\* the step record as the formulas see it (with its post-state)
+E(i) == S(i) @@ [st |-> St(i)]
 
 Viol(prop, name, detail) == PrintT(<<"VIOL", prop, name, Traces[tid].id, l + 1, detail>>)
 Drift(name, detail) == PrintT(<<"DRIFT", name, Traces[tid].id, l + 1, detail>>)
@@ -130,7 +134,7 @@ StepOK(pre, e) ==
 
 Init == tid \in 1..Len(Traces) /\ l = 1
 Next == /\ l < NSteps(tid)
-        /\ (StepOK(S(l).st, S(l + 1)) = TRUE)   \* "= TRUE": evaluate as a value, no action-level splitting
+        /\ (StepOK(St(l), E(l + 1)) = TRUE)   \* "= TRUE": evaluate as a value, no action-level splitting
         /\ l' = l + 1
         /\ UNCHANGED tid
 
